@@ -15,6 +15,7 @@ fn render(sym: &[String]) -> String {
             "M" => out.push_str("9223372036854775807"),
             "T" => out.push_str("1500"),
             "K" => out.push_str("1000"),
+            "Z" => out.push_str("0000000000000000000007"),
             x => out.push_str(x),
         }
     }
